@@ -28,6 +28,11 @@ struct State {
     uid: u64,
     delay_us: u64,
     rng: Option<StdRng>,
+    /// forced overlap of a voting thread with the shard workers: a voting job waits at its start until some worker
+    /// is inside a scan (under the shard lock), and that worker stays there for a while
+    overlap: bool,
+    voters_waiting: u32,
+    scans_parked: u32,
 }
 
 pub struct Ctl {
@@ -75,6 +80,31 @@ impl Ctl {
             std::thread::sleep(Duration::from_micros(d));
         }
         let mut st = self.st.lock().unwrap();
+        if st.overlap {
+            if site == "v.job.start" {
+                st.voters_waiting += 1;
+                let t0 = Instant::now();
+                while st.scans_parked == 0 && t0.elapsed() < Duration::from_millis(30) {
+                    let (g, _) = self.cv.wait_timeout(st, Duration::from_millis(2)).unwrap();
+                    st = g;
+                }
+                if st.scans_parked > 0 {
+                    // give the workers of the other shards the time to arrive inside their scans as well
+                    drop(st);
+                    std::thread::sleep(Duration::from_millis(4));
+                    st = self.st.lock().unwrap();
+                }
+                st.voters_waiting -= 1;
+            } else if site == "w.dist.scan" && st.voters_waiting > 0 {
+                st.scans_parked += 1;
+                self.cv.notify_all();
+                drop(st);
+                std::thread::sleep(Duration::from_millis(15));
+                st = self.st.lock().unwrap();
+                st.scans_parked -= 1;
+                self.reordered.fetch_add(1, std::sync::atomic::Ordering::SeqCst);
+            }
+        }
         if st.gating {
             let key = match site {
                 "w.cmd.start" if args[0] == st.uid && args[2] == 2 => Some((WORKER, args[1])),
@@ -138,6 +168,12 @@ impl Ctl {
         st.rng = Some(StdRng::seed_from_u64(seed));
         st.delay_us = max_us;
     }
+    /// Forced overlap (batch trackers): every voting job waits (up to 30 ms) at `v.job.start` until a shard worker is
+    /// inside a distance scan, i.e. holds its shard lock; a worker that finds a voting job waiting stays inside its scan
+    /// for 15 ms.  What the voting thread reads while the workers are busy must be what it reads when they are idle.
+    pub fn set_overlap(&self) {
+        self.st.lock().unwrap().overlap = true;
+    }
     pub fn start_gating(&self, uid: u64) {
         let mut st = self.st.lock().unwrap();
         st.gating = true;
@@ -166,7 +202,8 @@ impl Ctl {
         true
     }
     /// Background scheduler: serialises the gated worker steps in an order chosen by `policy`
-    /// ("fwd": lowest shard first, "rev": highest shard first, "rand": seeded random) until stopped.
+    /// ("fwd": lowest shard first, "rev": highest shard first, "rand": seeded random, "slow": highest shard first and
+    /// every now and then a worker step is granted seconds late - a slow worker) until stopped.
     pub fn spawn_scheduler(self: &Arc<Self>, policy: &str, seed: u64) -> (Arc<std::sync::atomic::AtomicBool>, std::thread::JoinHandle<()>) {
         let stop = Arc::new(std::sync::atomic::AtomicBool::new(false));
         let stop2 = stop.clone();
@@ -174,6 +211,7 @@ impl Ctl {
         let policy = policy.to_string();
         let h = std::thread::spawn(move || {
             let mut rng = StdRng::seed_from_u64(seed);
+            let mut granted = 0u64;
             while !stop2.load(std::sync::atomic::Ordering::SeqCst) {
                 let key = {
                     let st = ctl.st.lock().unwrap();
@@ -188,7 +226,7 @@ impl Ctl {
                     ws.sort();
                     let k = match policy.as_str() {
                         "fwd" => ws[0],
-                        "rev" => ws[ws.len() - 1],
+                        "rev" | "slow" => ws[ws.len() - 1],
                         _ => ws[rng.gen_range(0..ws.len())],
                     };
                     if k != ws[0] {
@@ -199,6 +237,12 @@ impl Ctl {
                 // let a little time pass so that several workers are waiting and the policy has a choice
                 if policy != "fwd" {
                     std::thread::sleep(Duration::from_micros(150));
+                }
+                granted += 1;
+                if policy == "slow" && granted % 41 == 3 + seed % 5 {
+                    // longer than two one-second waits in a row (error stream, then result stream)
+                    std::thread::sleep(Duration::from_millis(2400));
+                    ctl.reordered.fetch_add(1, std::sync::atomic::Ordering::SeqCst);
                 }
                 ctl.grant_and_wait(key, Duration::from_secs(3));
             }
